@@ -83,7 +83,7 @@ def parseFacts : List String → Option Facts
 /-- a case that needs an opaque decoder's result must carry it -/
 def factsComplete (res : HttpResult) (e : Expect) (f : Facts) : Bool :=
   match res, e with
-  | .ok r, .string => !(decoderFor f r.body == .opaque && f.sd == .na)
+  | .ok r, .string => !((f.enc == .other || (f.enc == .utf8 && bom16 r.body)) && f.sd == .na)
   | .ok _, .json => f.jd != .na
   | _, _ => true
 
